@@ -129,6 +129,9 @@ func (m *conservationMonitor) Final(rc *RunCtx) *Violation {
 			if m.lostOK[c] {
 				continue
 			}
+			if _, gone := rc.Excluded[c]; gone {
+				continue // deactivated by the server on its own: its unsent edits are lost by design
+			}
 			rc.W.probe("conservation_checked")
 			if want := m.incs[c]; want != 0 {
 				var got int64 = -1
